@@ -67,7 +67,7 @@ def check_given(t, q0, r, n, freq, in_deg, norm_mag, cls, ref=None):
     for att in ("gyr_noise", "acc_noise", "mag_noise"):
         if not np.all(np.asarray(getattr(S, att)) == 0.0):
             t.fail("C20|Sensors|%s-attribute-differs-from-request" % att, dict(case, got=getattr(S, att)))
-    idx = sorted(set([0, 1, n // 2, n - 1]))
+    idx = sorted(set([0, 1, n // 2, n - 1] + list(range(5, n, 10))))
     for k in idx:
         R = exact_rot(q0, r, k) if n <= 60 else None
         Rk = np.asarray(S.rotations[k], dtype=float)
@@ -215,7 +215,9 @@ def realistic(seed):
     t = Tally()
     # small step angles (bounded rate) via the bigint mirror, longer trajectories, other sampling rates
     for q0, r, n, freq in (((3, 1, -2, 1), (400, 1, -2, 2), 200, 100.0), ((1, 0, 0, 0), (1000, 3, 0, 4), 200, 25.0), ((1, 2, 2, -3), (250, 0, 1, 0), 120, 200.0),
-                           ((0, 1, 1, 0), (5000, -1, 1, 1), 50, 10.0), ((2, -1, 0, 3), (90, 1, 1, 0), 60, 400.0)):
+                           ((0, 1, 1, 0), (5000, -1, 1, 1), 50, 10.0), ((2, -1, 0, 3), (90, 1, 1, 0), 60, 400.0),
+                           # a slow pitch-up from 80 to 88.7 degrees (steep, not vertical) and a pitch-down towards -89
+                           ((56, 0, 47, 0), (1000, 0, 1, 0), 76, 100.0), ((56, 0, -47, 0), (1500, 0, -1, 0), 118, 50.0)):
         for in_deg in (False, True):
             check_given(t, list(q0), list(r), n, freq, in_deg, False, "small-step")
     check_given(t, [3, 1, -2, 1], [400, 1, -2, 2], 40, 100.0, False, True, "small-step")
